@@ -204,21 +204,62 @@ theorem e1_ne_zero : e1 ≠ zeroV := by
 theorem ne_zero_of_normSq_pos {v : V} (h : 0 < V3.normSq v) : v ≠ zeroV := by
   rintro rfl; simp [V3.normSq_def] at h
 
+/-- the loop states (at the head of the `while True` loop) reachable from `st0`: `st0` itself and
+the state returned by every call of `_distance_loop` that answers `Unknown` -/
+inductive Reach (solve : Solver ℝ) (sA sB : V → V) (tolSq maxD : ℝ) (st0 : State ℝ) :
+    State ℝ → Prop
+  | init : Reach solve sA sB tolSq maxD st0 st0
+  | step {st : State ℝ} {out : StepOut ℝ} : Reach solve sA sB tolSq maxD st0 st →
+      distanceLoopStep solve (sA st.sd) (sB (-st.sd)) st tolSq maxD = .ok out →
+      out.gs = .unknown → Reach solve sA sB tolSq maxD st0 out.st
+
+/-- **every visited simplex is good**: in every loop state reachable from `st0`, the simplex
+that the next call of `_distance_loop` hands to the solver (the stored points plus the new
+support point `sA sd − sB (−sd)`) satisfies `good` -/
+def VisitedGood (good : A4 V → Nat → Prop) (solve : Solver ℝ) (sA sB : V → V) (tolSq maxD : ℝ)
+    (st0 : State ℝ) : Prop :=
+  ∀ st, Reach solve sA sB tolSq maxD st0 st →
+    ∀ Y1, st.Y.set st.nPoints (sA st.sd - sB (-st.sd)) = .ok Y1 → good Y1 (st.nPoints + 1)
+
+theorem visitedGood_true (solve : Solver ℝ) (sA sB : V → V) (tolSq maxD : ℝ) (st0 : State ℝ) :
+    VisitedGood (fun _ _ => True) solve sA sB tolSq maxD st0 := fun _ _ _ _ => trivial
+
+theorem Reach.prepend {solve : Solver ℝ} {sA sB : V → V} {tolSq maxD : ℝ} {st : State ℝ}
+    {out : StepOut ℝ} (hstep : distanceLoopStep solve (sA st.sd) (sB (-st.sd)) st tolSq maxD = .ok out)
+    (hunk : out.gs = .unknown) {s : State ℝ} (h : Reach solve sA sB tolSq maxD out.st s) :
+    Reach solve sA sB tolSq maxD st s := by
+  induction h with
+  | init => exact Reach.step Reach.init hstep hunk
+  | step _ h2 h3 ih => exact Reach.step ih h2 h3
+
+theorem VisitedGood.here {good : A4 V → Nat → Prop} {solve : Solver ℝ} {sA sB : V → V}
+    {tolSq maxD : ℝ} {st : State ℝ} (h : VisitedGood good solve sA sB tolSq maxD st) :
+    ∀ Y1, st.Y.set st.nPoints (sA st.sd - sB (-st.sd)) = .ok Y1 → good Y1 (st.nPoints + 1) :=
+  h st Reach.init
+
+theorem VisitedGood.next {good : A4 V → Nat → Prop} {solve : Solver ℝ} {sA sB : V → V}
+    {tolSq maxD : ℝ} {st : State ℝ} (h : VisitedGood good solve sA sB tolSq maxD st)
+    {out : StepOut ℝ} (hstep : distanceLoopStep solve (sA st.sd) (sB (-st.sd)) st tolSq maxD = .ok out)
+    (hunk : out.gs = .unknown) : VisitedGood good solve sA sB tolSq maxD out.st :=
+  fun s hs => h s (hs.prepend hstep hunk)
+
 /-- **(1) `inv`, run level.**  Every terminating run of the loop ends with a call of
 `distanceLoopStep` on a state that satisfies the invariant (`Stored`, `Running`), with genuine
 support points of `A` and `B` as arguments. -/
-theorem loop_inv {A B : V → Prop} {solve : Solver ℝ} (hsolve : SolverSpec solve)
+theorem loop_inv {A B : V → Prop} {good : A4 V → Nat → Prop} {solve : Solver ℝ}
+    (hsolve : SolverSpecOn good solve)
     {sA sB : V → V} (hsA : ∀ d, d ≠ zeroV → IsSupport A d (sA d))
     (hsB : ∀ d, d ≠ zeroV → IsSupport B d (sB d)) {tolSq maxD : ℝ} (htol : 0 ≤ tolSq) :
     ∀ (fuel it : Nat) (st : State ℝ) (gs : GjkState) (st' : State ℝ) (it' : Nat),
       Stored A B st 3 → Running tolSq st (sA st.sd - sB (-st.sd)) → st.sd ≠ zeroV →
+      VisitedGood good solve sA sB tolSq maxD st →
       gjkLoop solve sA sB tolSq maxD fuel it st = .ok (gs, st', it') →
       ∃ stIn out, Stored A B stIn 3 ∧ Running tolSq stIn (sA stIn.sd - sB (-stIn.sd)) ∧
-        stIn.sd ≠ zeroV ∧
+        stIn.sd ≠ zeroV ∧ VisitedGood good solve sA sB tolSq maxD stIn ∧
         distanceLoopStep solve (sA stIn.sd) (sB (-stIn.sd)) stIn tolSq maxD = .ok out ∧
         out.gs = gs ∧ out.st = st' ∧ gs ≠ .unknown
-  | 0, _, _, _, _, _, _, _, _, h => by simp [gjkLoop] at h
-  | fuel + 1, it, st, gs, st', it', hst, hrun, hsd, h => by
+  | 0, _, _, _, _, _, _, _, _, _, h => by simp [gjkLoop] at h
+  | fuel + 1, it, st, gs, st', it', hst, hrun, hsd, hvis, h => by
     unfold gjkLoop at h
     simp only [bind, Except.bind] at h
     split at h
@@ -232,8 +273,8 @@ theorem loop_inv {A B : V → Prop} {solve : Solver ℝ} (hsolve : SolverSpec so
           have hx := congrArg V3.x h0; have hy := congrArg V3.y h0; have hz := congrArg V3.z h0
           simp at hx hy hz
           apply V3.ext' <;> simp <;> linarith
-        obtain ⟨x, v', hinv⟩ := step_inv hsolve htol hst hrun (hsA _ hsd).1 (hsB _ hnegsd).1 hr
-          (by rw [hunk]; simp)
+        obtain ⟨x, v', hinv⟩ := step_inv hsolve htol hst hrun (hsA _ hsd).1 (hsB _ hnegsd).1
+          hvis.here hr (by rw [hunk]; simp)
         rcases hinv.exits with ⟨hg, _⟩ | ⟨hg, _⟩ | ⟨_, hsto, hcur, _⟩
         · rw [hunk] at hg; exact GjkState.noConfusion hg
         · rw [hunk] at hg; exact GjkState.noConfusion hg
@@ -243,10 +284,80 @@ theorem loop_inv {A B : V → Prop} {solve : Solver ℝ} (hsolve : SolverSpec so
             rw [hsdx, normSq_neg_one_smul, ← hv]
             linarith
           exact loop_inv hsolve hsA hsB htol fuel (it + 1) r.st gs st' it' hsto
-            (Or.inl ⟨x, hcur⟩) hsd' h
+            (Or.inl ⟨x, hcur⟩) hsd' (hvis.next hr hunk) h
       · rename_i hunk
         cases h
-        exact ⟨st, r, hst, hrun, hsd, hr, rfl, rfl, hunk⟩
+        exact ⟨st, r, hst, hrun, hsd, hvis, hr, rfl, rfl, hunk⟩
+
+/-- the simplex handed to the solver consists of points of `A ⊖ B` -/
+theorem stored_set_minkDiff {A B : V → Prop} (hA : ConvexSet A) (hB : ConvexSet B) {st : State ℝ}
+    (hst : Stored A B st 3) {p q : V} (hp : A p) (hq : B q) {Y1 : A4 V}
+    (hY : st.Y.set st.nPoints (p - q) = .ok Y1) :
+    ∀ y ∈ Y1.pre (st.nPoints + 1), MinkDiff A B y := by
+  obtain ⟨_, eY⟩ := pre_set st.Y Y1 st.nPoints _ hY
+  intro y hy
+  rw [eY] at hy
+  rcases List.mem_append.mp hy with h | h
+  · obtain ⟨a, b, ha, hb, he⟩ :=
+      stored_hull_minkDiff hA hB ⟨le_trans hst.1 (by norm_num), hst.2⟩ (mem_hull_of_mem h)
+    exact ⟨a, b, ha, hb, he⟩
+  · simp at h
+    exact ⟨p, q, hp, hq, h⟩
+
+/-- **the loop invariant holds in every reachable state** when every simplex of at most four
+points of `A ⊖ B` is `good` -/
+theorem reach_inv {A B : V → Prop} (hA : ConvexSet A) (hB : ConvexSet B)
+    {good : A4 V → Nat → Prop} {solve : Solver ℝ} (hsolve : SolverSpecOn good solve)
+    {sA sB : V → V} (hsA : ∀ d, d ≠ zeroV → IsSupport A d (sA d))
+    (hsB : ∀ d, d ≠ zeroV → IsSupport B d (sB d)) {tolSq maxD : ℝ} (htol : 0 ≤ tolSq)
+    (hall : ∀ (Y : A4 V) (n : Nat), n ≤ 4 → (∀ y ∈ Y.pre n, MinkDiff A B y) → good Y n)
+    {st0 : State ℝ} (hst0 : Stored A B st0 3)
+    (hrun0 : Running tolSq st0 (sA st0.sd - sB (-st0.sd))) (hsd0 : st0.sd ≠ zeroV) :
+    ∀ st, Reach solve sA sB tolSq maxD st0 st →
+      Stored A B st 3 ∧ Running tolSq st (sA st.sd - sB (-st.sd)) ∧ st.sd ≠ zeroV := by
+  intro st h
+  induction h with
+  | init => exact ⟨hst0, hrun0, hsd0⟩
+  | @step st out _ hstep hunk ih =>
+    obtain ⟨hst, hrun, hsd⟩ := ih
+    have hnegsd : -st.sd ≠ zeroV := by
+      intro h0; apply hsd
+      have hx := congrArg V3.x h0; have hy := congrArg V3.y h0; have hz := congrArg V3.z h0
+      simp at hx hy hz
+      apply V3.ext' <;> simp <;> linarith
+    have hp := (hsA _ hsd).1
+    have hq := (hsB _ hnegsd).1
+    obtain ⟨x, v', hinv⟩ := step_inv hsolve htol hst hrun hp hq
+      (fun Y1 hY => hall Y1 _ (by have := hst.1; omega) (stored_set_minkDiff hA hB hst hp hq hY))
+      hstep (by rw [hunk]; simp)
+    rcases hinv.exits with ⟨hg, _⟩ | ⟨hg, _⟩ | ⟨_, hsto, hcur, _⟩
+    · rw [hunk] at hg; exact GjkState.noConfusion hg
+    · rw [hunk] at hg; exact GjkState.noConfusion hg
+    · refine ⟨hsto, Or.inl ⟨x, hcur⟩, ?_⟩
+      obtain ⟨hsdx, _, hv, _, htl, _⟩ := hcur
+      apply ne_zero_of_normSq_pos
+      rw [hsdx, normSq_neg_one_smul, ← hv]
+      linarith
+
+/-- **discharging `VisitedGood`**: if every simplex of at most four points of `A ⊖ B` is `good`,
+every simplex a run visits is -/
+theorem visitedGood_of_minkDiff {A B : V → Prop} (hA : ConvexSet A) (hB : ConvexSet B)
+    {good : A4 V → Nat → Prop} {solve : Solver ℝ} (hsolve : SolverSpecOn good solve)
+    {sA sB : V → V} (hsA : ∀ d, d ≠ zeroV → IsSupport A d (sA d))
+    (hsB : ∀ d, d ≠ zeroV → IsSupport B d (sB d)) {tolSq maxD : ℝ} (htol : 0 ≤ tolSq)
+    (hall : ∀ (Y : A4 V) (n : Nat), n ≤ 4 → (∀ y ∈ Y.pre n, MinkDiff A B y) → good Y n)
+    {st0 : State ℝ} (hst0 : Stored A B st0 3)
+    (hrun0 : Running tolSq st0 (sA st0.sd - sB (-st0.sd))) (hsd0 : st0.sd ≠ zeroV) :
+    VisitedGood good solve sA sB tolSq maxD st0 := by
+  intro st hreach Y1 hY
+  obtain ⟨hst, _, hsd⟩ := reach_inv hA hB hsolve hsA hsB htol hall hst0 hrun0 hsd0 st hreach
+  have hnegsd : -st.sd ≠ zeroV := by
+    intro h0; apply hsd
+    have hx := congrArg V3.x h0; have hy := congrArg V3.y h0; have hz := congrArg V3.z h0
+    simp at hx hy hz
+    apply V3.ext' <;> simp <;> linarith
+  exact hall Y1 _ (by have := hst.1; omega)
+    (stored_set_minkDiff hA hB hst (hsA _ hsd).1 (hsB _ hnegsd).1 hY)
 
 theorem stored_init (A B : V → Prop) (y0 : A4 V) : Stored A B (gjkInit y0) 3 := by
   refine ⟨by simp [gjkInit], ⟨?_, ?_, ?_⟩⟩ <;> simp [gjkInit, A4.pre]
